@@ -36,6 +36,8 @@ type Op17 struct {
 type C17Case struct {
 	Ops    []Op17 `json:"ops"`
 	Closes int    `json:"closes"`
+	// CloseSendErrno: the socket refuses every send made during Close with this errno (0 = sends work)
+	CloseSendErrno int `json:"close_send_errno,omitempty"`
 }
 
 func (c C17Case) Describe() string {
@@ -43,7 +45,7 @@ func (c C17Case) Describe() string {
 	for i, o := range c.Ops {
 		fmt.Fprintf(&b, " %d %s u32=%d ack-errno=%d rules=%x noise=%d\n", i, o.K, o.U32, o.Errno, o.Rules, o.Noise)
 	}
-	fmt.Fprintf(&b, " then Close x %d\n", c.Closes)
+	fmt.Fprintf(&b, " then Close x %d (sends during Close fail with errno %d)\n", c.Closes, c.CloseSendErrno)
 	return b.String()
 }
 
@@ -64,6 +66,9 @@ func genC17(t *rapid.T) C17Case {
 		c.Ops = append(c.Ops, o)
 	}
 	c.Closes = rapid.SampledFrom([]int{0, 1, 1, 2, 3, 4}).Draw(t, "closes")
+	if rapid.IntRange(0, 4).Draw(t, "closesendfails") == 0 {
+		c.CloseSendErrno = rapid.SampledFrom([]int{int(syscall.ENOBUFS), int(syscall.EPERM), int(syscall.ECONNREFUSED), int(syscall.EBADF)}).Draw(t, "closesenderrno")
+	}
 	return c
 }
 
@@ -210,7 +215,11 @@ func propC17(c C17Case) error {
 	k.OnSend = nil
 	k.Queue = nil
 	sentBefore, recvBefore := len(k.Sent), k.Recvs
+	sendsBefore := k.Sends
 	logBefore := len(k.Log)
+	if c.CloseSendErrno != 0 {
+		k.SendErr = syscall.Errno(c.CloseSendErrno)
+	}
 	for j := 0; j < c.Closes; j++ {
 		_ = cl.Close() // the return value of later calls is not specified
 	}
@@ -219,7 +228,13 @@ func propC17(c C17Case) error {
 			return fmt.Errorf("Close x %d: the socket was closed %d times, want exactly once", c.Closes, k.Closes)
 		}
 		sent := k.Sent[sentBefore:]
-		if usedPID {
+		if c.CloseSendErrno != 0 {
+			// the request that clears the PID could not be sent; the socket must be closed all the same
+			if want := map[bool]int{true: 1, false: 0}[usedPID]; k.Sends-sendsBefore != want {
+				return fmt.Errorf("Close x %d (SetPID used: %v, sends fail): %d send attempts, want %d", c.Closes, usedPID, k.Sends-sendsBefore, want)
+			}
+			hC17.Class("history-close-with-failing-send")
+		} else if usedPID {
 			if len(sent) != 1 {
 				return fmt.Errorf("Close x %d after SetPID: %d requests sent, want exactly one AUDIT_SET clearing the PID", c.Closes, len(sent))
 			}
